@@ -321,7 +321,8 @@ PROPS = {
                        "correctness in the symbol tables",
     },
     "C16": {
-        "rules": [lambda prog, tier: copy.run_shallow(prog), lambda prog, tier: copy.run_params(prog), lambda prog, tier: copy.run_clobber(prog),
+        "rules": [lambda prog, tier: copy.run_shallow(prog), lambda prog, tier: copy.run_params(prog), lambda prog, tier: copy.run_strflags(prog),
+                  lambda prog, tier: copy.run_clobber(prog),
                   lambda prog, tier: exact.run(prog, {"COPY": {"roots": ["QScopy_prob_mpq_dbl", "QScopy_prob_mpq_mpf"], "closure": False}},
                                                exceptions={("QScopy_prob_mpq_dbl", "mpq_get_d"): "the conversion to double itself: mpq_get_d truncates to the nearest "
                                                            "double toward zero, within one unit in the last place",
@@ -675,6 +676,8 @@ _ADD = {
             "explanation": " (R-FULLSCAN) the loops that emit XU/XL and UL records are left only on counter tests or failure exits; (R-SECTIONS) every "
                            "section emitter dominates ENDATA; (R-SKIPGATE) after a basis has been loaded (factorok reset, R-FOK) no solve entry "
                            "point answers from the cache of the previous basis."},
+    "C16": {"explanation": " (R-STRFLAGS) no string function is applied to a flag array of the problem (a strncpy of intmarker stops at the first "
+                           "continuous column)."},
     "C17": {"technique": "; capacity-governed allocation agreement (governed arrays discovered from their allocation sites); read-but-never-written "
                          "field census; printf-format census; floating-point-derived subscript taint; four-array norm typestate at a basis load"},
     "C18": {"technique": "; append-slot typestate with error-code / flag correlation; deep-release check of owning records"},
